@@ -28,6 +28,7 @@ CHECKS.update({
  "C05": _chain("C05", "paths", "Three nodes and a lab node execute every decided block along independently drawn legal ABCI paths (proposer, validator after abandoned honest or corrupted rounds, syncer, restarted node); FinalizeBlock response digests, app hashes and full-state digests must agree on every height and no legal call may fail or panic on one path only."),
  "C18": _chain("C18", "ibc", "Outgoing withdrawals (trace and ibc/ spelling, plain and bridge senders) and incoming packets / acks / time-outs are driven through the real Ics20Transfer handlers; an independent ICS-20 ledger per (channel, sequencer-origin asset) must equal the escrow keys after every step, error-acknowledged receives must change nothing but the ack record, successful ones exactly what the source/sink rule says (incl. the bridge deposit).", note="packets are driven at the penumbra AppHandler boundary (no ICS-23 proof verification); each outgoing packet is resolved at most once, as IBC core guarantees"),
  "C14": _chain("C14", "validators", "Sequences of validator add / update / remove actions (several per block, repeated keys, removals on 1-3 validator sets) across pre-Aspen blocks, the Aspen upgrade block and post-Aspen blocks; every FinalizeBlock.validator_updates batch is folded over the genesis set with CometBFT's rules and compared after every block with the set and count the application stores (both storage formats read through the crate's own getters on the committed snapshot)."),
+ "C06": _chain("C06", "proposals", "Every PrepareProposal output (mempools filled around both limits, all max_tx_bytes classes, mixed action groups, dependent nonces, failing transactions) is checked for byte limit, sequenced-data limit, group order, acceptance by every node that processes it and fatal-error-free execution; a catalogue of ~20 single mutations (commitments, typed data items, undecodable / truncated / re-signed / duplicated / reordered / replayed / unaffordable transactions, sequenced data over the limit by one byte with a control exactly at the limit) is judged by the real ProcessProposal of a node at the same state."),
 })
 
 CHECKS["C13"] = dict(engine="mempool-walk", cat="exploration", ref="DESIGN.md §5 C13",
